@@ -1497,6 +1497,9 @@ class Repository:
                     logger.info('Finished writing file %s', file_path)
                     with glock:
                         restore_path, metadata = files_metadata.pop(file_path)
+                    # Parts are written into whatever file already existed at the
+                    # target; cut off anything beyond the restored length
+                    os.truncate(restore_path, files_sizes[file_path])
                     self.restore_metadata(restore_path, metadata)
                     finished_tracker.update()
 
@@ -1509,6 +1512,7 @@ class Repository:
         chunks_references = defaultdict(list)
         files_digests = {}
         files_metadata = {}
+        files_sizes = {}
         total_bytes = 0
 
         for snapshot_body in snapshots:
@@ -1546,6 +1550,7 @@ class Repository:
                     )
                     chunk_position += chunk_size
 
+                files_sizes[file_path] = chunk_position
                 total_bytes += chunk_position
 
                 if not ordered_chunks:
